@@ -75,6 +75,26 @@ CLAIMED['C18'] = {
     'note': 'Bounded stand-in, never counted as proved. Split independence is read as independence of Ok/Err and of the set of returned morphisms (see evidence assumptions).',
     'technique': 'bounded native execution of an executable contract on the real function (labelled bounded)',
 }
+CLAIMED['C03'] = {
+    'category': 'exploration',
+    'text': 'Bounded, on the modules the compiler (built from the current tree) emits for the probe theories: the property is decided as a postcondition of the generated close() -- '
+            'after every close() in every explored history (assertions over 3 elements per type interleaved with close() and close_until()) the model is isomorphic, by a map '
+            'fixing the caller\'s elements, to a fresh model on which the same assertions were replayed without intermediate close (same order; and reverse order with every '
+            'assertion made twice) and closed once; closing a closed model changes nothing. Neither verifier can take the generated loop (rule functions behind extern "Rust", '
+            'runtime iterators), so this is the bounded stand-in; the reference is the implementation itself on a canonical history, not an independent chase.',
+    'design_ref': '§6 C03',
+    'note': 'Bounded stand-in, labelled exploration, never counted as proved. Programs are sampled (the probes). A defect common to all histories is invisible (C01/C02 not claimed).',
+    'technique': 'bounded native execution of an executable postcondition of the generated close on emitted probe modules (labelled bounded)',
+}
+CLAIMED['C06'] = {
+    'category': 'exploration',
+    'text': 'Bounded and partial, on the modules emitted for the probe theories WITHOUT non-surjective conclusions: in every explored history close()/close_until() returned and '
+            'allocated no element id of any type (so the number of classes cannot grow). Termination itself is a liveness claim no contract decides; it is only observed on the '
+            'explored runs. The compile-time surjectivity check is not covered. The runtime mechanism "emptiness tests are exact" is proved under C08, is_dirty exactness under C04.',
+    'design_ref': '§6 C06',
+    'note': 'Bounded stand-in, labelled exploration, never counted as proved.',
+    'technique': 'bounded native execution of an executable postcondition of the generated close on emitted probe modules (labelled bounded)',
+}
 CLAIMED['C07'] = {
     'category': 'exploration',
     'text': 'Bounded, on the modules the compiler (built from the current tree) emits for the probe theories: the real generated close_until/close are driven through operation '
@@ -124,8 +144,6 @@ CLAIMED['C05']['text'] = CLAIMED['C05']['text'] + ' Unit GEN additionally proves
 NOT_APPLICABLE = {
     'C01': 'postcondition of the generated close_until loop and rule functions (extern "Rust", runtime iterators, string-templated generator): no function on that path can carry a contract Verus or Kani accepts (DESIGN §6)',
     'C02': 'needs the denotation of generated rule functions and define_*; not expressible as a contract within reach (DESIGN §6)',
-    'C03': 'relational property of two executions of the generated loop; no contract within reach (DESIGN §6)',
-    'C06': 'whole-history termination / liveness of generated loop code plus a Datalog-evaluated surjectivity check; not a per-call contract (DESIGN §6)',
     'C09': '"rustc accepts the emitted text" is not a postcondition over Display impls; would be translation validation, another family',
     'C10': 'the static checks are ~300 eqlog rules interpreted by generated code; there is no Rust function whose contract is the reference semantics',
     'C12': 'state is a directory tree mutated through std::fs and a rustc child process, quantified over crash points; every callee is external',
